@@ -288,12 +288,13 @@ class PiecewiseConstantBirthDeath(Distribution):
 
         times = torch.broadcast_to(times, self.mu.shape[:-1] + times.shape[-1:])
 
-        # rho.shape==[2,1] and lambda_.shape==[2,5] : add zeros
-        if self.rho.shape[:-1] == self.lambda_.shape[:-1] and self.rho.shape[-1] < m:
+        # rho.shape==[2,1] or [1] and lambda_.shape==[2,5] : a single rho is the
+        # sampling probability at the present, add zeros for the other epochs
+        if self.rho.shape[-1] == 1 and m > 1:
             rho = torch.cat(
                 (
                     torch.zeros(
-                        self.lambda_.shape[:-1] + (m - 1,),
+                        self.rho.shape[:-1] + (m - 1,),
                         dtype=self.lambda_.dtype,
                         device=self.lambda_.device,
                     ),
@@ -301,11 +302,11 @@ class PiecewiseConstantBirthDeath(Distribution):
                 ),
                 -1,
             )
-        # default fixed rho=[0.] and lambda_.shape==[2,5]
-        elif self.rho.shape != self.lambda_.shape:
-            rho = torch.broadcast_to(self.rho, self.lambda_.shape)
         else:
             rho = self.rho
+        # fixed rho and lambda_.shape==[2,5]
+        if rho.shape[:-1] != self.lambda_.shape[:-1]:
+            rho = torch.broadcast_to(rho, self.lambda_.shape[:-1] + rho.shape[-1:])
 
         p, A, B = self.log_p(times[..., 1:], times[..., :-1], rho)
 
